@@ -141,8 +141,14 @@ class C17(WigBedProp):
                 regs.append((n, a, b, nm4, f"s{i % 7} q" if (nreg <= 1000 and i % 5 == 0) else f"s{i % 7}"))
             bed = os.path.join(d, f"r{k}.bed")
             with open(bed, "w") as f:
-                for (n, a, b, name, sc) in regs:
-                    f.write(f"{n}\t{a}\t{b}\t{name}\t{sc}\n")
+                wides = {}
+                for i, (n, a, b, name, sc) in enumerate(regs):
+                    # k = 0: some rows carry thousands of further columns (a bed12+ record with long block lists): lines longer
+                    # than the 8 KiB buffer the BED file is read and split into per-thread chunks through
+                    wide = ("\t" + "\t".join(str(j) for j in range(r.choice([2500, 4000, 9000])))) if (k == 0 and i % max(2, nreg // 3) == 1) else ""
+                    if wide:
+                        wides[i] = wide[1:].split("\t")
+                    f.write(f"{n}\t{a}\t{b}\t{name}\t{sc}{wide}\n")
             for mode in (["-n", "4"], ["-n", "5"], ["-n", "interval"], ["-n", "none"], []):
                 if nreg > 1000 and mode != ["-n", "4"]:
                     continue
@@ -156,7 +162,7 @@ class C17(WigBedProp):
                         txt = open(outp).read() if os.path.exists(outp) else None
                         if t == 1:
                             ref = txt
-                            bad = self.check_rows(txt, regs, data, mode, bool(mm))
+                            bad = self.check_rows(txt, regs, data, mode, bool(mm), wides)
                             if bad and not any("aob_rows" in v[0] for v in rep.violations):
                                 rep.violation(f"aob_rows_{k}.txt", f"# bigwigaverageoverbed {' '.join(mode + mm)} -t 1 on {bw} {bed}\n# {bad}\n")
                         elif txt != ref and not any("aob_threads" in v[0] for v in rep.violations):
@@ -185,22 +191,23 @@ class C17(WigBedProp):
         rep.evals += nrun
 
     @staticmethod
-    def check_rows(txt, regs, data, mode, minmax):
+    def check_rows(txt, regs, data, mode, minmax, wides=None):
         if txt is None:
             return "no output"
         rows = txt.splitlines()
         if len(rows) != len(regs):
             return f"{len(rows)} rows for {len(regs)} input rows"
-        for row, (n, a, b, name, sc) in zip(rows, regs):
+        for ri, (row, (n, a, b, name, sc)) in enumerate(zip(rows, regs)):
             t = row.split("\t")
             if mode == ["-n", "interval"]:
                 wname, rest = f"{n}:{a}-{b}", t[1:]
                 if t[0] != wname:
                     return f"row name `{t[0]}`, expected `{wname}`"
             elif mode == ["-n", "none"]:
-                if t[:5] != [n, str(a), str(b), name, sc]:
-                    return f"row starts `{t[:5]}`, expected the input row"
-                rest = t[5:]
+                more = (wides or {}).get(ri, [])          # the whole input row is echoed, further columns included
+                if t[:5 + len(more)] != [n, str(a), str(b), name, sc] + more:
+                    return f"row starts `{t[:5]}`…, expected the input row"
+                rest = t[5 + len(more):]
             elif mode == ["-n", "5"]:
                 if t[0] != sc:
                     return f"row name `{t[0]}`, expected column 5 of the input row `{sc}`"
